@@ -4,6 +4,8 @@
   Proved here: the special values survive every such conversion, for all configurations.
 -/
 import UVerif.Model.Posit
+import UVerifProofs.Lemmas.PositArith
+import UVerifProofs.Lemmas.PositDecode
 open UVerif UVerif.Posit
 
 /-- NaR converts to NaR between any two posit configurations -/
@@ -25,3 +27,43 @@ theorem C15_posit_zero (n1 es1 n2 es2 : Nat) :
   simp
 
 example : Posit.convert 16 2 (decode 8 1 0x80) = 0x8000 := by decide
+
+/-! ### rounding between configurations (uses C01's `decode_value` and `convert_correct`) -/
+
+section
+open UVerif.Posit
+
+/-- **posit<n1,es1> → posit<n2,es2> is one correct rounding.** For every pair of configurations and every
+    real-valued source encoding, the converting constructor (`to_value()` then `convert`) returns the posit the
+    Standard selects for the source's exact value. -/
+theorem C15_posit_to_posit (n1 es1 n2 es2 a : Nat) (h1 : 2 ≤ n1) (h2 : 2 ≤ n2) (ha : a < 2 ^ n1)
+    (h0 : a ≠ 0) (hnar : a ≠ 2 ^ (n1 - 1)) (x : ℚ) (hx : positVal n1 es1 a = some x) :
+    PositNearest n2 es2 x (Posit.convert n2 es2 (decode n1 es1 a)) := by
+  obtain ⟨hv, hz, hi, hf, _, _⟩ := decode_value n1 es1 a h1 ha h0 hnar
+  rw [hx] at hv
+  injection hv with hv
+  rw [hv]
+  exact convert_val_correct n2 es2 h2 _ ⟨hz, hi, hf⟩
+
+/-- **identity on representable values / widen-then-narrow.** If the source value is exactly representable in the
+    target (in particular after widening), converting back returns the original encoding: the round trip
+    posit<n1,es1> → posit<n2,es2> → posit<n1,es1> is the identity whenever the first step was exact. -/
+theorem C15_posit_roundtrip (n1 es1 n2 es2 a : Nat) (h1 : 2 ≤ n1) (h2 : 2 ≤ n2) (ha : a < 2 ^ n1)
+    (h0 : a ≠ 0) (hnar : a ≠ 2 ^ (n1 - 1)) (x : ℚ) (hx : positVal n1 es1 a = some x)
+    (b : Nat) (hblt : b < 2 ^ n2)
+    (hexact : positVal n2 es2 b = some x) (hb0 : b ≠ 0) (hbnar : b ≠ 2 ^ (n2 - 1))
+    (hback : Posit.convert n1 es1 (decode n2 es2 b) < 2 ^ n1) :
+    Posit.convert n1 es1 (decode n2 es2 b) = a := by
+  have hr := C15_posit_to_posit n2 es2 n1 es1 b h2 h1 hblt hb0 hbnar x hexact
+  have hs := nearestB_self n1 es1 a h1 ha x hx
+  -- both `a` and the converted-back encoding are correct roundings of x: the relation has one solution
+  obtain ⟨hv, hz, hi, hf, _, ht⟩ := decode_value n1 es1 a h1 ha h0 hnar
+  rw [hx] at hv; injection hv with hv
+  rw [hv, ht] at hr hs
+  unfold tripleVal valS at hr hs
+  have hfr : (0 : ℚ) ≤ ((decode n1 es1 a).frac : ℚ) / 2 ^ (decode n1 es1 a).fb := by positivity
+  have hfr1 : ((decode n1 es1 a).frac : ℚ) / 2 ^ (decode n1 es1 a).fb < 1 := by
+    rw [div_lt_one (by positivity)]; exact_mod_cast hf
+  exact nearestB_unique n1 es1 h1 _ _ _ hfr hfr1 _ _ hback ha hr hs
+
+end
